@@ -553,11 +553,19 @@ class Translator:
             return sym(p)
         return atom_poly(("attr", self.tr(n.value), n.attr))
 
+    def _key_term(self, e):
+        """A KEY (subscript index / left operand of `in`) written `a + b` with no numeric constant in it is, in this
+        code base, the concatenation of two tuples - ORDERED - not a commutative sum (`ejk[left + right]` vs
+        `ejk[right + left]` are the row and the column convention).  Without this `+` would be read as arithmetic."""
+        if isinstance(e, ast.BinOp) and isinstance(e.op, ast.Add) and not any(isinstance(x, ast.Constant) and isinstance(x.value, (int, float)) for x in ast.walk(e)):
+            return concat(self._key_term(e.left), self._key_term(e.right))
+        return self.tr(e)
+
     def t_Subscript(self, n):
         base = self.tr(n.value)
         idx = n.slice
         if not isinstance(idx, ast.Slice):
-            return subscript(base, self.tr(idx))  # x[a, b] is x[(a, b)]
+            return subscript(base, self._key_term(idx))  # x[a, b] is x[(a, b)]
         if isinstance(idx, ast.Tuple):
             ix = tuple(self.tr(e) for e in idx.elts)
         elif isinstance(idx, ast.Slice):
@@ -620,7 +628,8 @@ class Translator:
 
     def t_Compare(self, n):
         if len(n.ops) == 1:
-            return mk_cmp(type(n.ops[0]).__name__, self.tr(n.left), self.tr(n.comparators[0]))
+            left = self._key_term(n.left) if isinstance(n.ops[0], (ast.In, ast.NotIn)) else self.tr(n.left)
+            return mk_cmp(type(n.ops[0]).__name__, left, self.tr(n.comparators[0]))
         # a OP b OP c  =  (a OP b) and (b OP c)   (the middle operand is a pure term here)
         terms = [self.tr(n.left)] + [self.tr(c) for c in n.comparators]
         return mk_bool("And", tuple(mk_cmp(type(o).__name__, terms[i], terms[i + 1]) for i, o in enumerate(n.ops)))
